@@ -39,6 +39,15 @@ def cases(tier, seed):
     for n in (100, 1000):
         for m in (1, 2, 7):
             yield dict(kind='structured', n=n, m=m)
+    # values of large and of tiny magnitude (neighbouring values differ by far less than 1e-5 relative / 1e-8 absolute)
+    for name, alpha in (('int-1e5', [100000, 100001, 100002, 100003]), ('real-1e3', [-2345.67, -2345.66, 1234.56, 1234.57]),
+                        ('tiny', [1e-9, 2e-9, 3e-9, 0.0]), ('int-1e9', [10 ** 9, 10 ** 9 + 1, 10 ** 9 + 2])):
+        for chunk in space.chunks(space.multisets(alpha, 1, 5), 60):
+            yield dict(kind='multisets', family=name, alpha=alpha, msets=[list(m) for m in chunk])
+    # long samples on both sides of 1000 / 10000 elements
+    for n in (999, 1001, 1024, 5000, 10001):
+        for m in (2, 7):
+            yield dict(kind='structured', n=n, m=m)
     # integer alphabet that crosses zero (negative values and negative non-integer queries)
     neg = [-3, -2, -1, 0, 1, 2]
     for chunk in space.chunks(space.multisets(neg, 1, 5 if tier == 'quick' else 7), 60):
